@@ -101,8 +101,8 @@ func init() {
 			{Rule: "NIL-1", Filter: role("handover-err")},
 			{Rule: "CONC-5", Filter: role("release"), Floors: map[string]int{"release": 1}},
 		},
-		Decides:    "no channel operation of the massive mode can block forever once the operation's context is cancelled (every send/select/receive has a ctx.Done() alternative or is a single send into a buffered channel); the context every stage waits on is the one derived and cancelled (deferred) by the operation; the error collector waits on the errgroup's context so the first error releases the rest; channels are closed once by their owner after its workers were joined; fields shared by concurrently running workers are written only under the owner's mutex.",
-		NotDecided: "'bounded time' as a number; readers/writers/callbacks supplied by the user that block forever; fairness; that no goroutine remains at the very instant of return (they terminate after cancel, asynchronously); races on objects the user supplies.",
+		Decides:    "no channel operation of the massive mode can block forever once the operation's context is cancelled (every send/select/receive has a ctx.Done() alternative or is a single send into a buffered channel); the context every stage waits on is the one derived and cancelled (deferred) by the operation; the error collector waits on the errgroup's context so the first error releases the rest; channels are closed once by their owner after its workers were joined; fields shared by concurrently running workers are written only under the owner's mutex; no stage error counts as success only together with ctx.Err() == nil; every stage starts at least one worker; whether the operation has seen every stage stop before it returns (it has not: known finding F13).",
+		NotDecided: "'bounded time' as a number; readers/writers/callbacks supplied by the user that block forever; fairness; races on objects the user supplies.",
 	}
 	props["C12"] = &PropSpec{ID: "C12",
 		Uses: []Use{
@@ -130,9 +130,12 @@ func init() {
 			{Rule: "SIB-6", Floors: map[string]int{"reuse": 3}},
 			{Rule: "EFF-4", Filter: and(role("gate"), funcHas("treePipeline"))},
 			{Rule: "SIB-5", Filter: funcHas("Pipeline")},
+			{Rule: "SIB-4", Filter: and(role("fresh"), funcHas("Pipeline"))},
+			{Rule: "CONC-1", Filter: role("pool"), Floors: map[string]int{"pool": 3}},
+			{Rule: "EFF-6", Filter: role("exists-all")},
 			{Rule: "PAIR-3", Filter: funcHas("Pipeline")},
 		},
-		Decides:    "each root is written under one critical section held in the worker frame (no per-line locking writer); workers share no unsynchronised state and no state learnt from other roots (reported as known finding F10 for the shared Markdown parser); every parsed root is forwarded non-nil; an error in any stage reaches the result.",
+		Decides:    "each root is written under one critical section held in the worker frame (no per-line locking writer); workers share no unsynchronised state and no state learnt from other roots (reported as known finding F10 for the shared Markdown parser); every parsed root is forwarded non-nil; an error in any stage reaches the result; every pooled stage starts at least one worker; encoded records are converted per root, not shared; the mkdirer's existence test is per root inside the workers (known finding F14).",
 		NotDecided: "equality of massive and simple results as values; interleavings beyond lock/ownership discipline; agreement of splitter and parser on which lines are roots for '#' documents (root cause of the known finding).",
 	}
 	props["C07"] = &PropSpec{ID: "C07",
@@ -165,12 +168,13 @@ func init() {
 			{Rule: "EFF-2", Floors: map[string]int{"site": 1}},
 			{Rule: "EFF-5", Filter: funcHas("Mkdirer")},
 			{Rule: "ERR-1", Filter: funcHas("Mkdirer", "mkdir")},
+			{Rule: "NIL-1", Filter: and(role("handover-err"), funcHas("kdirer"))},
 			{Rule: "TAB-3", Filter: cfgIs("D"), Floors: map[string]int{"pred": 1, "users": 1, "kind": 1}},
 			{Rule: "SIB-4", Filter: funcHas("makeDirectoriesAndFiles")},
-			{Rule: "GLOB-3", Filter: and(cfgIs("D"), constructHas("setPath"))},
+			{Rule: "GLOB-3", Filter: and(cfgIs("D"), or(constructHas("setPath"), role("structure")))},
 			{Rule: "C01-SEL", Filter: and(role("path"), cfgIs("D"))},
 		},
-		Decides:    "every creating call is dominated by the not-exists side of a test that stats every root and whose exists side yields the path-exists error; creation happens only in the mkdirer; created paths are Join(targetDir, node path); every filesystem error (MkdirAll, Create, Close) is returned.",
+		Decides:    "every creating call is dominated by the not-exists side of a test that stats every root and whose exists side yields the path-exists error; creation happens only in the mkdirer; created paths are Join(targetDir, node path); every filesystem error (MkdirAll, Create, Close) is returned; whether every root is tested before any root is created (not in massive mode: known finding F14).",
 		NotDecided: "the exact set of entries created for every forest, file-vs-directory choice as a value (see TAB-3 when claimed), OS refusals, pre-existing state other than roots.",
 	}
 	props["C08"] = &PropSpec{ID: "C08",
@@ -183,7 +187,7 @@ func init() {
 			{Rule: "NIL-1", Filter: and(role("handover-err"), funcHas("erifier"))},
 			{Rule: "CONC-4", Filter: and(role("access"), funcHas("erifier"))},
 			{Rule: "SIB-4", Filter: funcHas("fillDirsMarkdown")},
-			{Rule: "GLOB-3", Filter: and(cfgIs("D"), constructHas("setPath"))},
+			{Rule: "GLOB-3", Filter: and(cfgIs("D"), or(constructHas("setPath"), role("structure")))},
 			{Rule: "C01-SEL", Filter: and(role("path"), cfgIs("D"))},
 		},
 		Decides:    "verify never reaches a filesystem-mutating call; names are validated and paths assembled before verifying; looked-up paths are Join(targetDir, node path) like the mkdirer's; walk errors are returned.",
@@ -202,9 +206,9 @@ func init() {
 	}
 	props["C01"] = &PropSpec{ID: "C01",
 		Uses: []Use{
-			{Rule: "SIB-3", Filter: and(role("row", "fact"), cfgIs("D")), Floors: map[string]int{"row": 2, "fact": 2}},
-			{Rule: "C01-SEL", Filter: cfgIs("D"), Floors: map[string]int{"select": 1, "walkup": 1, "last": 1, "path": 2}},
-			{Rule: "SIB-4", Filter: cfgIs("D"), Floors: map[string]int{"traversal": 5}},
+			{Rule: "SIB-3", Filter: role("row", "fact"), Floors: map[string]int{"row": 2, "fact": 2}},
+			{Rule: "C01-SEL", Floors: map[string]int{"select": 1, "walkup": 1, "last": 1, "path": 2}},
+			{Rule: "SIB-4", Filter: and(cfgIs("D"), not(role("fresh"))), Floors: map[string]int{"traversal": 5}},
 			{Rule: "PAIR-1", Floors: map[string]int{"insert": 1, "lookup": 1}},
 			{Rule: "PAIR-2", Floors: map[string]int{"link": 1, "level": 1}},
 			{Rule: "GLOB-3", Filter: cfgIs("D"), Floors: map[string]int{"accumulate": 2}},
@@ -252,7 +256,7 @@ func init() {
 			{Rule: "TAB-6", Filter: role("tags", "encode", "factory"), Floors: map[string]int{"tags": 2, "encode": 1, "factory-nop": 1}},
 			{Rule: "EFF-4", Filter: role("encode-kept"), Floors: map[string]int{"encode-kept": 2}},
 			{Rule: "PAIR-6", Floors: map[string]int{"encoder": 2}},
-			{Rule: "SIB-4", Filter: funcHas("toFormattedNode", "toJSONNode"), Floors: map[string]int{"traversal": 1}},
+			{Rule: "SIB-4", Filter: or(funcHas("toFormattedNode", "toJSONNode"), role("fresh")), Floors: map[string]int{"traversal": 1, "fresh": 3}},
 			{Rule: "ERR-1", Filter: and(scope("lib"), funcHas("formattedSpreader", "jsonSpreader"))},
 			{Rule: "NIL-4", Filter: funcHas("toFormattedNode", "jsonNode)", "tomlNode)", "yamlNode)", "toJSONNode")},
 		},
@@ -266,6 +270,7 @@ func init() {
 			{Rule: "PAIR-7", Floors: map[string]int{"yield": 3, "yield-exempt": 2}},
 			{Rule: "SIB-4", Filter: funcHas("walkNode", "assemble"), Floors: map[string]int{"traversal": 2}},
 			{Rule: "NIL-3", Filter: role("iter")},
+			{Rule: "PAIR-4", Filter: role("lazy")},
 			{Rule: "C01-SEL", Filter: and(role("path"), cfgIs("D"))},
 			{Rule: "GLOB-3", Filter: cfgIs("D")},
 			{Rule: "GLOB-1", Filter: and(role("sink"), cfgIs("D"), funcHas("alk"))},
@@ -281,6 +286,7 @@ func init() {
 			{Rule: "GLOB-1", Floors: map[string]int{"global": 4, "summary": 1}},
 			{Rule: "GLOB-3", Floors: map[string]int{"accumulate": 4}},
 			{Rule: "PAIR-4", Filter: role("lazy"), Floors: map[string]int{"lazy": 1}},
+			{Rule: "CONC-3", Filter: role("operation")},
 		},
 		Decides:    "no value derived from mutable package-level state (a variable assigned outside init, written through, or handed to a mutating method — counters, caches, pools, maps) reaches a branch condition, an output/filesystem call or an exported result; the per-node branch/path cache is cleared before it is rebuilt on every route, so repeating an operation repeats its result.",
 		NotDecided: "concurrent Add on the same tree from several goroutines (unsupported by design), external global configuration (color.NoColor), state kept in objects the caller passes in.",
@@ -290,6 +296,8 @@ func init() {
 			{Rule: "TAB-2", Floors: map[string]int{"table": 1, "loop": 1, "split": 1}},
 			{Rule: "TAB-1", Filter: role("blank", "parse-always")},
 			{Rule: "PARSE-1"},
+			{Rule: "GLOB-1", Filter: role("sink", "global-mutable")},
+			{Rule: "CONC-6", Filter: role("parser-scope")},
 			{Rule: "SIB-5", Filter: func(o Ob) bool { return strings.Contains(o.Construct, "blank lines") || strings.Contains(o.Construct, "classified") }},
 		},
 		Decides:    "(thin claim) the three bullet symbols are all in the parser's table, all tried (no early break), and the massive-mode splitter consults the same table plus '#'; whitespace-only lines are skipped — not rejected, not turned into nodes — in every line loop.",
